@@ -19,7 +19,21 @@ from harness.core import HarnessError, Outcome, flatten_exc, innermost_is_harnes
 from harness.gen import BACKEND, SEED, D
 from harness.vloop import Deadlock, backend_options
 
-RESULTS = [None, 0, 1, 5, 127, 128, 255, -1, "x", 1.5]
+import enum
+
+
+class ExitCode(enum.IntEnum):  # exit statuses are often spelled as an IntEnum: its members ARE integers
+    OK = 0
+    USAGE = 2
+    LAST = 127
+    TOO_BIG = 200
+
+
+class _Status(int):
+    pass
+
+
+RESULTS = [None, 0, 1, 5, 127, 128, 255, -1, "x", 1.5, ExitCode.OK, ExitCode.USAGE, ExitCode.LAST, ExitCode.TOO_BIG, _Status(0), _Status(3)]
 
 
 class Boom(Exception):
@@ -307,7 +321,7 @@ class Interp:
             return "returned normally"
 
         def want_exit(code: int) -> bool:
-            return got["kind"] == "exit" and got["code"] == code and type(got["code"]) is int
+            return got["kind"] == "exit" and isinstance(got["code"], int) and got["code"] == code  # (an int subclass exits with its value)
 
         def want_exc(exc: BaseException | None) -> bool:
             return got["kind"] == "raise" and exc is not None and any(exc is l for l in flatten_exc(got["exc"]))
